@@ -283,6 +283,49 @@ structure Fixes where
   extcomExact : Bool
   deriving DecidableEq, Repr
 
+/-! ### field ranges of a protobuf message (`uint32`, `bytes`) -/
+
+def u32 (n : Nat) : Bool := n < 4294967296
+
+def AStr.inRange : AStr → Bool
+  | .ip4 n => u32 n
+  | .ip6 n => n < 2 ^ 128
+  | .bad k => u32 k
+
+def isBytes (bs : Bytes) : Bool := bs.all (· < 256)
+
+def ExtCom.inRange : ExtCom → Bool
+  | .missing => true
+  | .other => true
+  | .unknown ty v => u32 ty && isBytes v
+  | .twoOctetAs _ s a l => u32 s && u32 a && u32 l
+  | .ipv4 _ s a l => u32 s && a.inRange && u32 l
+  | .fourOctetAs _ s a l => u32 s && u32 a && u32 l
+  | .mup s a b => u32 s && u32 a && u32 b
+  | .trafficRate a r => u32 a && u32 r
+  | .trafficAction _ _ => true
+  | .redirect2 a l => u32 a && u32 l
+  | .trafficRemark d => u32 d
+  | .redirectIp4 a l => a.inRange && u32 l
+  | .redirect4 a l => u32 a && u32 l
+
+def ApiAttr.inRange : ApiAttr → Bool
+  | .missing => true
+  | .other => true
+  | .unknown f t v => u32 f && u32 t && isBytes v
+  | .origin n => u32 n
+  | .asPath segs => segs.all fun s => u32 s.1 && s.2.all u32
+  | .nextHop s => s.inRange
+  | .med n => u32 n
+  | .localPref n => u32 n
+  | .atomicAggregate => true
+  | .aggregator a s => u32 a && s.inRange
+  | .communities l => l.all u32
+  | .originatorId s => s.inRange
+  | .clusterList l => l.all AStr.inRange
+  | .largeCommunities l => l.all fun t => u32 t.1 && u32 t.2.1 && u32 t.2.2
+  | .extCommunities l => l.all ExtCom.inRange
+
 /-! ## `read_extcom` / `write_extcom` -/
 
 def boolBit (b : Bool) (v : Nat) : Nat := if b then v else 0
@@ -726,6 +769,19 @@ inductive ApiNlri where
   | vpn (labels : List Nat) (rd : Option ApiRd) (len : Nat) (s : AStr)
   deriving DecidableEq, Repr
 
+def ApiRd.inRange : ApiRd → Bool
+  | .missing => true
+  | .twoOctet a b => u32 a && u32 b
+  | .ip4 a b => a.inRange && u32 b
+  | .fourOctet a b => u32 a && u32 b
+
+def ApiNlri.inRange : ApiNlri → Bool
+  | .missing => true
+  | .other => true
+  | .prefix s l => s.inRange && u32 l
+  | .labeled ls l s => ls.all u32 && u32 l && s.inRange
+  | .vpn ls rd l s => ls.all u32 && (match rd with | none => true | some r => r.inRange) && u32 l && s.inRange
+
 def rdToApi : Rd → ApiRd
   | .twoOctet a b => .twoOctet a b
   | .ip4 a b => .ip4 (.ip4 a) b
@@ -998,6 +1054,7 @@ def run (fx : Fixes) : Case → Obs
       | .err => .fromErr
       | .panic => .fromPanic
   | .nlriWire f bs =>
+      if bs.length > 3000 then .unmodelled else
       match decodeList f bs.length bs with
       | .ok l => if l.isEmpty then .decodeErr else .nlris (l.map (nlriObs fx))
       | .err => .decodeErr
@@ -1008,6 +1065,14 @@ def run (fx : Fixes) : Case → Obs
       | .err => .fromErr
       | .panic => .fromPanic
   | .explore _ => .exploreOk
+
+/-- cases whose numeric fields fit the protobuf / wire field widths (anything else is `(bad-case)`) -/
+def Case.inRange : Case → Bool
+  | .attrWire .. => true
+  | .attrApi x => x.inRange
+  | .nlriWire .. => true
+  | .nlriApi x => x.inRange
+  | .explore _ => true
 
 /-- the code as it is in /repo now (with the C17 repairs of convert.rs) -/
 def current : Fixes := { validate := true, extcomExact := true }
